@@ -60,20 +60,21 @@ end Code
 
 /-! ### result objects over a history of calls -/
 
-/-- the objects handed out so far (oldest first); a handle is the index of its object -/
+/-- the objects handed out so far (oldest first); a handle is the index of its object.  An `Array`
+so that the compiled driver can follow histories of tens of thousands of objects. -/
 structure Heap where
-  cells : List Bits
+  cells : Array Bits
 
 namespace Heap
 
-def empty : Heap := ⟨[]⟩
-def size (h : Heap) : Nat := h.cells.length
+def empty : Heap := ⟨#[]⟩
+def size (h : Heap) : Nat := h.cells.size
 /-- current content of object `r` -/
 def read (h : Heap) (r : Nat) : Option Bits := h.cells[r]?
 /-- a new object; its handle is the old `size` -/
-def push (h : Heap) (v : Bits) : Heap := ⟨h.cells ++ [v]⟩
+def push (h : Heap) (v : Bits) : Heap := ⟨h.cells.push v⟩
 /-- overwrite object `r` in place (nothing happens for a handle that was never handed out) -/
-def write (h : Heap) (r : Nat) (v : Bits) : Heap := ⟨h.cells.set r v⟩
+def write (h : Heap) (r : Nat) (v : Bits) : Heap := ⟨h.cells.setIfInBounds r v⟩
 
 end Heap
 
